@@ -48,7 +48,10 @@ class Enc:
         return c if c is not None else show(t)
 
     def len_atom(self, t: Term, k: int) -> Formula:
-        return atom(f"len({self.key(strip_wrappers(t))})={k}")
+        t = strip_wrappers(t)
+        while t[0] == "or" and len(t[1]) == 2 and t[1][1][0] in ("list", "tuple", "set", "dict") and not t[1][1][1]:
+            t = strip_wrappers(t[1][0])  # `x or []`
+        return atom(f"len({self.key(t)})={k}")
 
     def truth(self, t: Term) -> Formula:
         op = t[0]
@@ -78,9 +81,9 @@ class Enc:
             return f_or([atom(f"is{n}({self.key(t[1])})") for n in sorted(names)])
         if self.canon(t) is None and op in ("list", "tuple", "set", "dict"):
             return ("const", bool(t[1]))
-        if self.sized(t):
-            return f_not(self.len_atom(t, 0))
-        return atom(f"T:{self.key(t)}")
+        # every other value: one integer variable per value (truthiness == "length is not 0"), so that `x`, `len(x) > 0`,
+        # `len(x) != 0` and `bool(x)` are the same condition
+        return f_not(self.len_atom(t, 0))
 
     def sized(self, t: Term) -> bool:
         """A term known to be a sized collection: its truthiness is `len != 0` (canonical keys of collections start with '#')."""
@@ -95,6 +98,8 @@ class Enc:
             c = self.truth(b[1])
             return f_or([f_and([c, self.cmp(("cmp", op, a, b[2]))]), f_and([f_not(c), self.cmp(("cmp", op, a, b[3]))])])
         if op == "Is":
+            if b == NONE_T and a[0] == "mcall" and a[2] == "get" and len(a[3]) == 1:
+                return f_not(self.cmp(("cmp", "In", a[3][0], a[1])))  # values of the mappings looked at here are never None
             if b == NONE_T:
                 return atom(f"{self.key(a)} is None")
             if a == NONE_T:
